@@ -249,6 +249,9 @@ def shard(a):
     strat = st.fixed_dictionaries({'mod': st.just(name), 'fn': st.just(fn), 'kind': st.just(kind), 'x': x.map(core.enc),
                                    'kw': st.sampled_from(OPTS.get((name, fn), [{}])), 'clock': gen.clock_strategy(name)})
     core.drive(prop, strat, a['n'], (a['seed'], 'C12', name, fn), res, shrink_skip=a['known'])
+    # characters of either class at every position, every character at the edges, digits on range-table boundaries
+    for v in gen.edge_pool(name) + gen.boundary_pool(name):
+        prop({'mod': name, 'fn': fn, 'kind': kind, 'x': v, 'kw': {}, 'clock': None}, res)
     res.notes['calls_per_getter'] = {'%s.%s' % (name, fn): res.hist['getter-calls']}
     return res
 
